@@ -134,6 +134,16 @@ def run(ctx):
     from .c03 import check_alive_flag, check_delete_id
     check_alive_flag(ctx, 'C02.1')
     check_delete_id(ctx, 'C02.3', 'C02.3')
+    # "server-range ids are reused freely, client ids only after their delete_id": the reuse discipline of create_object and the
+    # server range constant are C03 obligations that this property depends on - their findings are findings here too
+    from ..report import Ctx as _Ctx
+    from . import c03 as _c03
+    sub = _Ctx('C03', repo, tier=ctx.tier, quiet=True)
+    _c03.run(sub)
+    for v in sub.violations:
+        if v['rule'] in ('C03.2', 'C03.4', 'C03.5'):
+            ctx.violation('C02.1', 'reuse-discipline:%s:%s' % (v['rule'], v['key']), v['site'], 'attribution to the latest incarnation rests on %s: %s' % (v['rule'], v['msg']), v['witness'])
+    ctx.ok('C02.1', f_create.loc(), 'reuse-discipline', 'reuse discipline of create_object and the server id range evaluated (C03.2/4/5, %d obligations)' % len([o for o in sub.obligations if o['rule'] in ('C03.2', 'C03.4', 'C03.5')]))
     # ---- C02.2 index = generation ---------------------------------------------------------------
     n_app = 0
     for p in cpaths:
